@@ -63,6 +63,8 @@ OPS: list[tuple[str, ...]] = (
        ("select_any",), ("set_project", "default"), ("delete_profile", "default"), ("delete_profile", "email"),
        # a read-only command (shows the active profile): changes nothing on disk, but goes through the same long-lived services
        ("whoami",)]
+    # the user types the URL of a known environment with a trailing slash
+    + [("env_switch_slash", u) for u in URLS]
 )
 
 
@@ -107,6 +109,8 @@ class World:
                 self.env.create_or_update_environment(Environment(api_url=URLS[op[1]], requires_auth=False))
             elif kind == "env_switch":
                 self.env.switch_environment(URLS[op[1]])
+            elif kind == "env_switch_slash":
+                self.env.switch_environment(URLS[op[1]] + "/")
             elif kind == "env_delete":
                 if not self.env.delete_environment(URLS[op[1]]):
                     res = "noop"
